@@ -8,3 +8,4 @@ pub mod ident;
 pub mod instr;
 pub mod rf;
 pub mod rfprog;
+pub mod text;
